@@ -252,7 +252,7 @@ def shrink(case):
 def gen(rng, tier):
     from props import c02
     out = []
-    n = 160 if tier == 'quick' else 3000
+    n = 160 if tier == 'quick' else 1200
     for _ in range(n):
         c = c02.const_shape(rng)
         out.append(c)
